@@ -47,6 +47,7 @@ class Solver:
         self.vars = {}
         self.box = {}
         self.guess_first = True
+        self.candidate_scales = None
         self._last_guess = None
         self._guess_sentinel = z3.BoolVal(True)
         self.default_box = default_box
@@ -79,6 +80,130 @@ class Solver:
                 c, p, q = P.ATOMS.info[x]
                 todo.extend(p.atoms()); todo.extend(q.atoms()); todo.extend(_cond_atoms(c))
 
+    # ---- interval reasoning about value selection -----------------------------------------------------------------
+    def _ival_atom(self, a, memo):
+        if a in memo:
+            return memo[a]
+        b = self.bound(a)
+        kind = P.ATOMS.kind[a]
+        if b is None and kind in ('sqrt', 'inv', 'lin'):
+            try:
+                self.auto_bounds([a])
+            except Exception:
+                pass
+            b = self.box.get(a)
+        if b is None and kind in ('opq', 'lin'):
+            b = self._ival(P.ATOMS.info[a], memo)
+        if b is None and kind == 'abs':
+            q = self._ival(P.ATOMS.info[a], memo)
+            if q is not None:
+                lo = Fraction(0) if q[0] <= 0 <= q[1] else min(abs(q[0]), abs(q[1]))
+                b = (lo, max(abs(q[0]), abs(q[1])))
+        if b is None and kind == 'ite':
+            c, u, v = P.ATOMS.info[a]
+            dec = self._cond_decided(c, memo)
+            iu = self._ival(u, memo); iv = self._ival(v, memo)
+            if dec is True:
+                b = iu
+            elif dec is False:
+                b = iv
+            elif iu is not None and iv is not None:
+                b = (min(iu[0], iv[0]), max(iu[1], iv[1]))
+        if b is not None and (b[0] is None or b[1] is None):
+            b = None
+        memo[a] = b
+        return b
+
+    def _ival(self, p, memo):
+        """(lo, hi) enclosure of a polynomial over the atom boxes, or None"""
+        lo = hi = Fraction(0)
+        for k, c in p.t.items():
+            mlo = mhi = Fraction(c)
+            for a in k:
+                b = self._ival_atom(a, memo)
+                if b is None:
+                    return None
+                cands = [mlo * b[0], mlo * b[1], mhi * b[0], mhi * b[1]]
+                mlo, mhi = min(cands), max(cands)
+            lo += mlo; hi += mhi
+        return (lo, hi)
+
+    def _cond_decided(self, c, memo):
+        if isinstance(c, bool):
+            return c
+        if c.op == 'not':
+            r = self._cond_decided(c.a, memo)
+            return None if r is None else (not r)
+        if c.op in ('and', 'or'):
+            x = self._cond_decided(c.a, memo); y = self._cond_decided(c.b, memo)
+            if c.op == 'and':
+                return False if (x is False or y is False) else (True if (x is True and y is True) else None)
+            return True if (x is True or y is True) else (False if (x is False and y is False) else None)
+        iv = self._ival(c.a - c.b, memo)
+        if iv is None:
+            return None
+        lo, hi = iv
+        if c.op == 'gt':
+            return True if lo > 0 else (False if hi <= 0 else None)
+        if c.op == 'ge':
+            return True if lo >= 0 else (False if hi < 0 else None)
+        if c.op == 'lt':
+            return True if hi < 0 else (False if lo >= 0 else None)
+        if c.op == 'le':
+            return True if hi <= 0 else (False if lo > 0 else None)
+        if c.op == 'ne':
+            return True if (lo > 0 or hi < 0) else None
+        if c.op == 'eq':
+            return False if (lo > 0 or hi < 0) else None
+        return None
+
+    def resolve_selection(self, p):
+        """replace value-selection atoms (ite / max / min / clamp / abs) whose outcome is decided by the interval bounds of the
+        atoms by the selected branch (exact rewriting: sound for sat and unsat); defined atoms over them are rebuilt"""
+        memo_iv = {}
+        memo = {}
+
+        def rw(q):
+            mapping = None
+            for a in q.atoms():
+                r = rw_atom(a)
+                if r is not None:
+                    if mapping is None:
+                        mapping = {}
+                    mapping[a] = r
+            return q.subst(mapping) if mapping else q
+
+        def rw_atom(a):
+            if a in memo:
+                return memo[a]
+            memo[a] = None
+            kind = P.ATOMS.kind[a]; info = P.ATOMS.info[a]
+            out = None
+            if kind == 'ite':
+                c, u, v = info
+                dec = self._cond_decided(c, memo_iv)
+                if dec is True:
+                    out = rw(u)
+                elif dec is False:
+                    out = rw(v)
+            elif kind == 'abs':
+                iv = self._ival(info, memo_iv)
+                if iv is not None and iv[0] >= 0:
+                    out = rw(info)
+                elif iv is not None and iv[1] <= 0:
+                    out = rw(info) * Fraction(-1)
+            elif kind in ('inv', 'sqrt'):
+                q2 = rw(info)
+                if q2 is not info:
+                    out = P.inv(q2) if kind == 'inv' else P.sqrt(q2)
+            elif kind in ('lin', 'opq'):
+                q2 = rw(info)
+                if q2 is not info:
+                    out = q2
+            memo[a] = out
+            return out
+        return rw(p)
+
     # ---- witnesses by evaluation ------------------------------------------------------------------------------
     def _free_atoms(self):
         return sorted(a for a in self.vars if P.ATOMS.kind[a] in ('in', 'cot', 'par'))
@@ -95,18 +220,19 @@ class Solver:
                 lambda i: Fraction(1) if i == 0 else Fraction(0), lambda i: Fraction(1) if i % 2 == 0 else H,
                 lambda i: Fraction(1) if i < n // 2 else Fraction(-1), lambda i: Fraction((i % 5) - 2, 2), lambda i: Fraction(0),
                 lambda i: Fraction(1) if i == n - 1 else H]
-        for f in pats:
-            m = {}
-            ok = True
-            for i, a in enumerate(atoms):
-                v = f(i)
-                lo, hi = self.bound(a) or (None, None)
-                if (lo is not None and v < lo) or (hi is not None and v > hi):
-                    # scale the pattern into the box
-                    r = min(abs(lo) if lo is not None else 1, abs(hi) if hi is not None else 1)
-                    v = v * r
-                m[a] = v
-            if ok:
+        for sc in (self.candidate_scales or (Fraction(1),)):
+            for f in pats:
+                m = {}
+                for i, a in enumerate(atoms):
+                    v = f(i)
+                    if P.ATOMS.kind[a] == 'in':
+                        v = v * sc                  # small inputs expose fixed absolute thresholds; cotangents / parameters keep their size
+                    lo, hi = self.bound(a) or (None, None)
+                    if (lo is not None and v < lo) or (hi is not None and v > hi):
+                        # scale the pattern into the box
+                        r = min(abs(lo) if lo is not None else 1, abs(hi) if hi is not None else 1)
+                        v = v * r
+                    m[a] = v
                 yield m
 
     def _on_path(self, env, margin=1e-9):
